@@ -96,6 +96,16 @@ Theorem C18_roundtrip :
   request_one want (FHdr h :: rest) = Some h.
 Proof. exact request_one_identity. Qed.
 
+(** Get / GetByHeight with several trusted servers that together hold the header: whatever the
+    order in which their answers arrive (the header, NOT_FOUND from a server that lacks it,
+    nothing from one that timed out), the call returns the header as soon as one holds it *)
+Theorem C18_roundtrip_any_arrival_order :
+  forall (want : option N) (h : hdr) (answers : list (list frame)),
+  h_ok h = true -> (match want with Some w => w = h_chain h | None => True end) ->
+  Forall (honest_one h) answers -> In [FHdr h] answers ->
+  perform_request want answers = Some h.
+Proof. exact perform_request_honest. Qed.
+
 (** non-vacuity: three peers — one holds nothing of the range (NOT_FOUND), one holds a
     prefix (short answer, remainder re-requested), one times out once with nothing — and the
     call still returns exactly 11..17 for chunk size 3 *)
@@ -135,3 +145,4 @@ Print Assumptions C18_rejected_answer_keeps_measure.
 Print Assumptions C18_no_deadlock.
 Print Assumptions C18_honest_chunks_always_chain.
 Print Assumptions C18_roundtrip.
+Print Assumptions C18_roundtrip_any_arrival_order.
